@@ -170,6 +170,20 @@ def cases(seed, tier):
             for f in all_sites(arch, True, rng):
                 yield {'arch': arch, 'faults': [f], 'opts': ['-n'], 'timeout': 2, 'net': {'rtt_us': 200, 'seg': {'mode': 'msg'}}, 'pseed': 1}
                 idx += 1
+    # compound faults on one message: an inserted DEBUG/IGNORE packet followed by a damaged one (thorough: all; quick: a seeded sample)
+    compound = []
+    for arch in archs:
+        rng = gen.case_rng(seed, ID, arch, 'compound')
+        sites = all_sites(arch, False, rng)
+        ins = [f for f in sites if f['kind'] == 'insert_before' and f.get('what') in ('debug', 'ignore')]
+        for a in ins:
+            for b in sites:
+                if b.get('conn') == a['conn'] and b.get('msg') == a['msg'] and b['kind'] in ('corrupt', 'garbage', 'truncate_close', 'truncate_stall', 'dup') and b.get('field') in (None, 'packet_length', 'padding_length', 'msg_type'):
+                    compound.append({'arch': arch, 'faults': [copy.deepcopy(a), copy.deepcopy(b)], 'opts': ['-n'], 'timeout': 2, 'net': {'rtt_us': 200, 'seg': {'mode': 'msg'}}, 'pseed': 1})
+    if tier != 'thorough':
+        compound = gen.case_rng(seed, ID, 'compound-pick').sample(compound, min(len(compound), 600))
+    for c in compound:
+        yield c
     pools = {}
     for i in range(NRANDOM[tier]):
         rng = gen.case_rng(seed, ID, i)
@@ -179,6 +193,10 @@ def cases(seed, tier):
         pool = pools[arch]
         nf = 1 if rng.random() < 0.75 else 2
         faults = [copy.deepcopy(rng.choice(pool)) for _ in range(nf)]
+        if nf == 2 and rng.random() < 0.5 and 'msg' in faults[0]:
+            same = [f for f in pool if f.get('conn') == faults[0]['conn'] and f.get('msg') == faults[0]['msg'] and f['kind'] != faults[0]['kind']]
+            if same:
+                faults[1] = copy.deepcopy(rng.choice(same))
         net = gen.rand_net(rng)
         if net['rtt_us'] > 60000:
             net['rtt_us'] = 60000
